@@ -10,7 +10,8 @@ import storefam
 import vlib
 
 PID = "C04"
-FILES = ["theories/Properties/C04.v", "theories/Examples/C04Examples.v", "theories/Examples/C04Wirings.v"]
+FILES = ["theories/Properties/C04.v", "theories/Examples/C04Examples.v", "theories/Examples/C04Wirings.v",
+         "theories/Examples/C04Diamonds.v"]
 
 # (root, field) of fk fields / (root, set) of back-reference sets / (child store, field) of fk fields that live in a child
 # bucket, of the current schema
@@ -235,9 +236,13 @@ def oracle(sch, txs, io, mo):
                 # a delete refused with an unclassified error where the property demands success or a reference-exists refusal
                 ra, rb = a["results"], [("err" if r == "FUEL" else r) for r in b["results"]]
                 n = len(ra) - 1
-                if n >= 0 and n < len(rb) and n < len(ops) and ra[:n] == rb[:n] and ops[n][0] == "D" and ra[n] == "err" and rb[n] in ("ok", "refexists"):
-                    out.append(("C04:delete-spurious-error", "delete of %s %r failed with an unclassified error; the property demands %s" % (
-                        ops[n][1], unhex(ops[n][2]), "success" if rb[n] == "ok" else "a reference-exists refusal"), k))
+                if n >= 0 and n < len(rb) and n < len(ops) and ra[:n] == rb[:n] and ops[n][0] == "D" and ra[n] in ("err", "notfound") and rb[n] in ("ok", "refexists"):
+                    # "not found" is the answer for an entity that does not exist; the deleted entity exists here (same state
+                    # before the transaction, same results of the earlier operations, the machine deletes / refuses it): the
+                    # error comes from inside the delete - e.g. a cascade that meets an entity a nested cascade removed already
+                    how = "failed with an unclassified error" if ra[n] == "err" else "of an existing entity failed with a not-found error"
+                    out.append(("C04:delete-spurious-error", "delete of %s %r %s; the property demands %s" % (
+                        ops[n][1], unhex(ops[n][2]), how, "success (cascade to exactly the transitive referrers)" if rb[n] == "ok" else "a reference-exists refusal"), k))
                     break
         prev_i = a["facts"]
         if b is not None:
@@ -337,26 +342,34 @@ def shrink_replays(c, tmp, budget_s=20):
                 json.dump(rp, f, indent=1, sort_keys=True)
 
 
+SCHEMA_TIES = [("C04Wirings.v", "C04cp,C04cx,C04cd"), ("C04Diamonds.v", "C04da,C04db,C04dc,C04dd")]
+
+
 def schema_tie(c):
-    """the schemas of Examples/C04Wirings.v between the markers are the derived schemas of the harness wirings C04cp / C04cx /
-    C04cd: regenerate the Coq text from the wirings (sub-command c04-coqschema) and compare (white space normalised)"""
+    """the schemas between the markers of Examples/C04Wirings.v (C04cp / C04cx / C04cd) and Examples/C04Diamonds.v (C04da ...
+    C04dd) are the derived schemas of the harness wirings: regenerate the Coq text from the wirings (sub-command
+    c04-coqschema) and compare (white space normalised)"""
     harness = os.path.join(vlib.BUILD, "storageharness")
     if not os.path.exists(harness):
         return
-    d = os.path.join(c.work, "coqschema")
-    os.makedirs(d, exist_ok=True)
-    rc, out = vlib.run([harness, "c04-coqschema", "--out", d], timeout=60)
-    src = open(os.path.join(vlib.COQ, "theories", "Examples", "C04Wirings.v")).read()
-    have = None
-    if "(* generated: begin *)" in src and "(* generated: end *)" in src:
-        have = src.split("(* generated: begin *)", 1)[1].split("(* generated: end *)", 1)[0]
-    want = open(os.path.join(d, "schemas.v.txt")).read() if rc == 0 and os.path.exists(os.path.join(d, "schemas.v.txt")) else None
-    c.cov["schema_tie"] = "Examples/C04Wirings.v generated block == c04-coqschema of the harness wirings C04cp, C04cx, C04cd"
-    if have is None or want is None or " ".join(have.split()) != " ".join(want.split()):
-        c.violation(PID + ":wiring-schema-drift",
-                    "the schemas of Examples/C04Wirings.v (wf_* computations, guard instances) are not the derived schemas of the "
-                    "harness wirings C04cp / C04cx / C04cd any more: regenerate the block with `storageharness c04-coqschema`",
-                    dict(correspondence="Examples/C04Wirings.v generated block vs harness wirings", log=(out or "")[-800:]), no_input=True)
+    ties = []
+    for fname, wirings in SCHEMA_TIES:
+        d = os.path.join(c.work, "coqschema_" + fname.split(".")[0])
+        os.makedirs(d, exist_ok=True)
+        rc, out = vlib.run([harness, "c04-coqschema", "--wirings", wirings, "--out", d], timeout=60)
+        src = open(os.path.join(vlib.COQ, "theories", "Examples", fname)).read()
+        have = None
+        if "(* generated: begin *)" in src and "(* generated: end *)" in src:
+            have = src.split("(* generated: begin *)", 1)[1].split("(* generated: end *)", 1)[0]
+        want = open(os.path.join(d, "schemas.v.txt")).read() if rc == 0 and os.path.exists(os.path.join(d, "schemas.v.txt")) else None
+        ties.append("Examples/%s generated block == c04-coqschema of the harness wirings %s" % (fname, wirings.replace(",", ", ")))
+        if have is None or want is None or " ".join(have.split()) != " ".join(want.split()):
+            c.violation(PID + ":wiring-schema-drift",
+                        "the schemas of Examples/%s (wf_* computations, guard / cascade instances) are not the derived schemas of the "
+                        "harness wirings %s any more: regenerate the block with `storageharness c04-coqschema --wirings %s`" % (
+                            fname, wirings.replace(",", " / "), wirings),
+                        dict(correspondence="Examples/%s generated block vs harness wirings" % fname, log=(out or "")[-800:]), no_input=True)
+    c.cov["schema_tie"] = "; ".join(ties)
 
 
 def main(argv):
@@ -390,7 +403,15 @@ def main(argv):
             "fields are known to the FieldChecker under an api name (PersistContext.WithFieldOverrides, or asked by the strategy) or are "
             "written whatever the checker says, so that the checker's answer for the STORED name and the written value differ; plus "
             "bounded-exhaustive patch sequences (<= 2 quick / <= 3 thorough) over five small scenarios of these wirings (root and child "
-            "stores, every fk edge kind). Each history runs in a child process (stack "
+            "stores, every fk edge kind). Streams 6 / 3d: fk edges that start or end at a child store (C04cp / C04cx / C04cd). Streams 7 / 3e: "
+            "cascade graphs with shared descendants over the wirings C04da / C04db / C04dc / C04dd (a store with two cascading fk "
+            "fields whose targets are connected by a cascade: fk constraints with CascadeDelete, cascading fk indexes, a self "
+            "reference, guards on child stores, restricting edges in between) + casc / fkc: every history starts with a DAG built on "
+            "purpose (apex, 2-5 referrers created with one cascading fk field at a node of the DAG and the other fk fields at further "
+            "nodes - references only to older entities, so no cycle -, now and then a restricting referrer) followed by the delete of "
+            "the apex or an inner node through the root or a child store; ids plain / prefix-related / hostile so that the inner "
+            "node sorts before and after the shared descendant; bounded-exhaustive op sequences after four committed diamonds. "
+            "Each history runs in a child process (stack "
             "limit, memory limit, timeout). Compared with the extracted machine: op result kinds, entities, fk field values, back-reference "
             "sets; oracle on the implementation's facts: targets exist, back-reference sets exact, a successful delete removed exactly the "
             "transitive referrers, a refused operation changed nothing, no delete fails with an unclassified error.",
